@@ -30,7 +30,8 @@ def lru_stems_from_parsed_url(parsed_url, suffix_aware=True):
 
     # Handling auth
     if "@" in netloc:
-        auth, netloc = netloc.split("@", 1)
+        # NOTE: the userinfo ends at the last "@"
+        auth, netloc = netloc.rsplit("@", 1)
 
         if ":" in auth:
             user, password = auth.split(":", 1)
